@@ -682,18 +682,22 @@ enum TOp {
     Remove(usize),
 }
 
-fn tag_word_model(cfg: &Cfg, rep: &Reporter, ev_: &mut Evidence) {
+/// `mixed` = false: tag keys of one type only (strings): the open cross-type key collision cannot occur, every
+/// failure ends the sequence and the run must be violation-free. `mixed` = true: an integer key is added; a
+/// divergence that involves keys of two types is filed under `tag-map-key-collision`, the model is
+/// re-synchronised with the attached map and the sequence goes on, so later steps are still checked.
+fn tag_word_model(cfg: &Cfg, rep: &Reporter, ev_: &mut Evidence, mixed: bool) {
     let max_ops = if cfg.quick() { 2 } else { 3 };
     let n_alpha = alphabet(cfg.quick(), cfg.seed).len();
     let n_tm = tag_maps().len();
-    const NKEYS: usize = 4;
+    let nkeys: usize = if mixed { 4 } else { 3 };
     const NVALS: usize = 2;
     let mut ops: Vec<TOp> = vec![];
     for i in 0..n_tm {
         ops.push(TOp::With(i));
         ops.push(TOp::Literal(i));
     }
-    for k in 0..NKEYS {
+    for k in 0..nkeys {
         for v in 0..NVALS {
             ops.push(TOp::Insert(k, v));
         }
@@ -706,12 +710,14 @@ fn tag_word_model(cfg: &Cfg, rep: &Reporter, ev_: &mut Evidence) {
     }
     let per_start = seq_offs[max_ops + 1];
     let total = n_alpha * starts * per_start;
-    let agg = Mutex::new((0u64, 0u64, 0u64, BTreeMap::<String, u64>::new())); // sequences, steps, evals, per op
+    let agg = Mutex::new((0u64, 0u64, 0u64, BTreeMap::<String, u64>::new(), 0u64, 0u64, 0u64)); // sequences, steps, evals, per op, resynced steps, collision observations, sequences cut short
     par_run(cfg.threads, total, 64, |_t, pull| {
         let base = mk_base();
         let alpha = alphabet(cfg.quick(), cfg.seed);
         let tms = tag_maps();
-        let keys: Vec<Val> = vec![strv("k"), strv("z"), strv("#fmt"), int(1)];
+        let mut keys: Vec<Val> = vec![strv("k"), strv("z"), strv("#fmt"), int(1)];
+        keys.truncate(nkeys);
+        let (mut n_resync, mut n_coll_obs, mut n_cut) = (0u64, 0u64, 0u64);
         let vals: Vec<Val> = vec![strv("w"), tagged(&int(5), &tms[1])];
         let (mut n_seq, mut n_steps, mut n_evals) = (0u64, 0u64, 0u64);
         let mut per_op: BTreeMap<String, u64> = BTreeMap::new();
@@ -742,6 +748,7 @@ fn tag_word_model(cfg: &Cfg, rep: &Reporter, ev_: &mut Evidence) {
                 let bare = render(&v0.cell);
                 let weight_base = (n as u64) * 10_000 + if si > 0 { 500 } else { 0 };
                 let mut failed = false;
+                let mut tainted = false;
                 // observe the start state too, then every step
                 for step in 0..=n {
                     if step > 0 {
@@ -804,6 +811,31 @@ fn tag_word_model(cfg: &Cfg, rep: &Reporter, ev_: &mut Evidence) {
                                 m.retain(|(kk, _)| *kk != keys[*k].cell);
                             }
                         }
+                        // the attached map as it is now (read through the Rust API, not through a word)
+                        let actual: Vec<(Cell, Cell)> = cur.tags().map(|t| t.iter().map(|(k, v)| (k.clone(), v.clone())).collect()).unwrap_or_default();
+                        let wanted: Vec<(Cell, Cell)> = model.clone().unwrap_or_default();
+                        let agree = actual.len() == wanted.len() && wanted.iter().all(|(k, v)| actual.iter().any(|(kk, vv)| kk == k && vv == v));
+                        if !agree {
+                            let op_key_type = match op {
+                                TOp::Insert(k, _) | TOp::Remove(k) => Some(keys[*k].cell.value().type_name()),
+                                _ => None,
+                            };
+                            let two_types = op_key_type.map(|t| wanted.iter().chain(actual.iter()).any(|(k, _)| k.value().type_name() != t)).unwrap_or(false);
+                            if mixed && (two_types || tainted) {
+                                let p = format!("{} tags", program);
+                                rep.report_w("tag-map-key-collision", wt(weight_base + p.len() as u64, &p), || {
+                                    jo(vec![("kind", js("tag-words")), ("program", js(p.clone())), ("after", js(word)), ("observer", js("attached map")), ("expected", js(format!("{:?}", wanted.iter().map(|(k, v)| format!("{}=>{}", render(k), render(v))).collect::<Vec<_>>()))), ("observed", js(format!("{:?}", actual.iter().map(|(k, v)| format!("{}=>{}", render(k), render(v))).collect::<Vec<_>>())))])
+                                });
+                                // re-synchronise: go on from what the implementation holds
+                                model = Some(actual.clone());
+                                tainted = true;
+                                n_resync += 1;
+                            }
+                            // otherwise the `tags` observer below reports it under its own key
+                        }
+                        if actual.len() <= 1 {
+                            tainted = false;
+                        }
                     }
                     // ---- observers
                     let word = if step == 0 { "start".to_string() } else { match &seq[step - 1] { TOp::With(_) => "with-tags", TOp::Literal(_) => "^{", TOp::Insert(..) => "insert-tag", TOp::Remove(_) => "remove-tag" }.to_string() };
@@ -836,8 +868,13 @@ fn tag_word_model(cfg: &Cfg, rep: &Reporter, ev_: &mut Evidence) {
                             None => false,
                         };
                         if !ok {
-                            report("get-tag", mixed_key_types(&k.cell, &got), render(&want), format!("{:?}", got.as_ref().map(render)), &format!("{} get-tag", k.src));
-                            failed = true;
+                            let coll = mixed && (tainted || mixed_key_types(&k.cell, &got));
+                            report("get-tag", coll, render(&want), format!("{:?}", got.as_ref().map(render)), &format!("{} get-tag", k.src));
+                            if coll {
+                                n_coll_obs += 1;
+                            } else {
+                                failed = true;
+                            }
                         }
                     }
                     // tags
@@ -858,11 +895,19 @@ fn tag_word_model(cfg: &Cfg, rep: &Reporter, ev_: &mut Evidence) {
                         };
                         if !ok {
                             let distinct_types: BTreeSet<String> = entries.iter().map(|(k, _)| k.value().type_name().to_string()).collect();
-                            report("tags", distinct_types.len() > 1, format!("{:?}", entries.iter().map(|(k, v)| format!("{}=>{}", render(k), render(v))).collect::<Vec<_>>()), format!("{:?}", got.as_ref().map(render)), "tags");
-                            failed = true;
+                            let coll = mixed && (tainted || distinct_types.len() > 1);
+                            report("tags", coll, format!("{:?}", entries.iter().map(|(k, v)| format!("{}=>{}", render(k), render(v))).collect::<Vec<_>>()), format!("{:?}", got.as_ref().map(render)), "tags");
+                            if coll {
+                                n_coll_obs += 1;
+                            } else {
+                                failed = true;
+                            }
                         }
                     }
                     if failed {
+                        if step < n {
+                            n_cut += 1;
+                        }
                         break;
                     }
                 }
@@ -872,6 +917,9 @@ fn tag_word_model(cfg: &Cfg, rep: &Reporter, ev_: &mut Evidence) {
         g.0 += n_seq;
         g.1 += n_steps;
         g.2 += n_evals;
+        g.4 += n_resync;
+        g.5 += n_coll_obs;
+        g.6 += n_cut;
         for (k, v) in per_op {
             *g.3.entry(k).or_insert(0) += v;
         }
@@ -887,7 +935,11 @@ fn tag_word_model(cfg: &Cfg, rep: &Reporter, ev_: &mut Evidence) {
     ev_.traces += g.0;
     ev_.evaluations += g.2;
     ev_.nontrivial += g.0 - (n_alpha * starts) as u64;
-    ev_.add("tag_word_model", jo(vec![("max_operations", ji(max_ops)), ("operation_alphabet", ji(ops.len())), ("sequences", ji(g.0)), ("steps", ji(g.1)), ("per_word", jmap(&g.3)), ("observers_after_every_step", js("value unchanged, get-tag for every key of {\"k\",\"z\",\"#fmt\",1}, tags, old handle unchanged"))]));
+    if !mixed && g.4 + g.5 > 0 {
+        machinery_error("C13: the single-type tag-key run met a cross-type collision");
+    }
+    println!("C13 tag-word model ({}): {} sequences, {} steps, {} re-synchronised, {} cut short", if mixed { "mixed key types" } else { "string keys" }, g.0, g.1, g.4, g.6);
+    ev_.add(if mixed { "tag_word_model_mixed_key_types" } else { "tag_word_model_string_keys" }, jo(vec![("tag_keys", J::A((if mixed { vec!["\"k\"", "\"z\"", "\"#fmt\"", "1"] } else { vec!["\"k\"", "\"z\"", "\"#fmt\""] }).into_iter().map(js).collect())), ("steps_re_synchronised_after_a_cross_type_collision", ji(g.4)), ("observations_filed_under_the_open_collision_finding", ji(g.5)), ("sequences_cut_short_by_another_violation", ji(g.6)), ("max_operations", ji(max_ops)), ("operation_alphabet", ji(ops.len())), ("sequences", ji(g.0)), ("steps", ji(g.1)), ("per_word", jmap(&g.3)), ("observers_after_every_step", js("value unchanged, get-tag for every tag key, tags, attached map, old handle unchanged"))]));
 }
 
 // ------------------------------------------------------------------ entry
@@ -937,7 +989,8 @@ pub fn run(cfg: &Cfg) -> i32 {
         println!("C13 sweep: {} words + {} templates, {:.1}s", n_words, targets.len() - n_words, t0.elapsed().as_secs_f64());
     }
     if only.as_deref().map(|o| o == "model").unwrap_or(true) {
-        tag_word_model(cfg, &rep, &mut ev_);
+        tag_word_model(cfg, &rep, &mut ev_, false);
+        tag_word_model(cfg, &rep, &mut ev_, true);
         println!("C13 tag-word model done, {:.1}s", t0.elapsed().as_secs_f64());
     }
     if let Some(o) = only {
